@@ -321,6 +321,7 @@ fn sock_strategy() -> BoxedStrategy<String> {
         Just("[2001:db8::4]:8323".to_string()),
         Just("[::ffff:192.0.2.128]:80".to_string()),
         Just("[::]:1".to_string()),
+        Just("[fe80::1%3]:179".to_string()),
         (any::<[u8; 4]>(), any::<u16>()).prop_map(|(a, p)| format!("{}.{}.{}.{}:{}", a[0], a[1], a[2], a[3], p)),
         (any::<[u16; 8]>(), any::<u16>()).prop_map(|(a, p)| format!("[{}]:{}", std::net::Ipv6Addr::from(a), p)),
     ]
